@@ -17,7 +17,7 @@ from vt.sym import EngineLimit, Sym, V, _lift, boolean, engine, fresh, real, val
 from vt.tensor import Tensor, mk_sum
 from . import _patch  # noqa: F401
 from .core_gfi import args_recorded, battery_replay, same
-from .selection import AbsSel
+from .selection import AbsSel, mk_selection, CONCRETE_SEL
 
 core = loader.load("core")
 
@@ -212,10 +212,12 @@ class VmapUpdate(_VmapBase):
 
 @contract("genjax.core:Vmap.regenerate", ["C04", "C05", "C08"])
 class VmapRegenerate(_VmapBase):
+    cases = _VmapBase.cases + ["in_axes=0(default):" + c for c in CONCRETE_SEL]
+
     def call(self, case):
-        self.mk(case)
+        self.mk(case.split(":sel=")[0])
         tr = self.old_trace()
-        self.s = core.Selection(AbsSel.fresh("S"))
+        self.s = mk_selection(case)
         return self.real(self.fn, self.vm, tr, self.s, *self.args, **self.kwargs)
 
     def ensures(self, case, path):
@@ -394,6 +396,10 @@ class ScanSimulate(_ScanBase):
         yield "does_not_raise", path.outcome == "return"
         if path.outcome != "return":
             return
+        if not path.extra.get("scans"):
+            # no scan ran at all: only right when there are no steps (T is symbolic, T = 1 refutes it)
+            yield "steps_are_evaluated_by_a_scan_over_the_callee(none_ran_although_T_may_be_positive)", self.T <= 0
+            return
         rec = self.scan_rec(path)
         g = self.g
         x_at = lambda t: g.DrawF(self.a_step(rec, t), LaneNonce(z3.IntVal(1), t))
@@ -410,6 +416,10 @@ class ScanAssess(_ScanBase):
     def ensures(self, case, path):
         yield "does_not_raise", path.outcome == "return"
         if path.outcome != "return":
+            return
+        if not path.extra.get("scans"):
+            # no scan ran at all: only right when there are no steps (T is symbolic, T = 1 refutes it)
+            yield "steps_are_evaluated_by_a_scan_over_the_callee(none_ran_although_T_may_be_positive)", self.T <= 0
             return
         rec = self.scan_rec(path)
         g, T = self.g, self.T
@@ -436,6 +446,10 @@ class ScanGenerate(_ScanBase):
     def ensures(self, case, path):
         yield "does_not_raise", path.outcome == "return"
         if path.outcome != "return":
+            return
+        if not path.extra.get("scans"):
+            # no scan ran at all: only right when there are no steps (T is symbolic, T = 1 refutes it)
+            yield "steps_are_evaluated_by_a_scan_over_the_callee(none_ran_although_T_may_be_positive)", self.T <= 0
             return
         rec = self.scan_rec(path)
         g, T = self.g, self.T
@@ -466,6 +480,10 @@ class ScanUpdate(_ScanBase):
         yield "does_not_raise", path.outcome == "return"
         if path.outcome != "return":
             return
+        if not path.extra.get("scans"):
+            # no scan ran at all: only right when there are no steps (T is symbolic, T = 1 refutes it)
+            yield "steps_are_evaluated_by_a_scan_over_the_callee(none_ran_although_T_may_be_positive)", self.T <= 0
+            return
         rec = self.scan_rec(path)
         g, T = self.g, self.T
         tr, w, d = path.value
@@ -486,13 +504,17 @@ class _ScanRegenerate(_ScanBase):
     def call(self, case):
         self.mk(case)
         tr = self.old_trace()
-        self.s = core.Selection(AbsSel.fresh("S"))
+        self.s = mk_selection(case)
         return self.real(self.fn, self.sc, tr, self.s, *self.args, **self.kwargs)
 
     def ensures(self, case, path):
         # "The operation is defined - it does not fail - for every program and every selection"
         yield "does_not_raise", path.outcome == "return"
         if path.outcome != "return":
+            return
+        if not path.extra.get("scans"):
+            # no scan ran at all: only right when there are no steps (T is symbolic, T = 1 refutes it)
+            yield "steps_are_evaluated_by_a_scan_over_the_callee(none_ran_although_T_may_be_positive)", self.T <= 0
             return
         rec = self.scan_rec(path)
         g, T = self.g, self.T
@@ -521,7 +543,7 @@ class ScanRegenerateValue(_ScanRegenerate):
     """callee discards a value at every step (e.g. a selected distribution)"""
 
     discard_kind = "value"
-    cases = ["callee_discards_value:args_only", "callee_discards_value:with_kwargs"]
+    cases = ["callee_discards_value:args_only", "callee_discards_value:with_kwargs", "callee_discards_value:args_only:sel=all"]
 
 
 @contract("genjax.core:Scan.regenerate", ["C04", "C05", "C09"])
@@ -529,7 +551,7 @@ class ScanRegenerateNone(_ScanRegenerate):
     """callee discards nothing (selection does not reach into the scan)"""
 
     discard_kind = "none"
-    cases = ["callee_discards_None:args_only"]
+    cases = ["callee_discards_None:args_only"] + ["callee_discards_None:args_only:" + c for c in CONCRETE_SEL]
 
 
 @contract("genjax.core:Scan.regenerate", ["C04", "C05", "C09"])
@@ -703,7 +725,7 @@ class CondUpdate(_CondBase):
 class CondRegenerate(_CondBase):
     """G5 for Cond for moves that do not switch the branch; total (never raises)."""
 
-    cases = ["both_discard:args_only", "both_discard:with_kwargs", "none_discard:args_only", "either_discard:args_only"]
+    cases = ["both_discard:args_only", "both_discard:with_kwargs", "none_discard:args_only", "either_discard:args_only", "none_discard:args_only:sel=none", "both_discard:args_only:sel=all"]
 
     def call(self, case):
         self.mk(case)
@@ -711,7 +733,7 @@ class CondRegenerate(_CondBase):
         self.g1.discard_kind = self.g2.discard_kind = kind
         tr = self.old_trace()
         engine().assume(self.check0.e == self.check.e)  # the claim excludes branch-switching moves
-        self.s = core.Selection(AbsSel.fresh("S"))
+        self.s = mk_selection(case)
         return self.real(self.fn, self.cd, tr, self.s, *self.args, **self.kwargs)
 
     def ensures(self, case, path):
